@@ -279,8 +279,11 @@ class ModeDReader(MeterReaderBase[DataReadout]):
         readouts_received: list[DataReadout] = []
 
         if len(self._buffer) > 8191:
+            # A line this long is not part of a readout. Discard it together with
+            # what has been collected, and hunt for the next readout.
             self._is_int_hunt_mode = True
-            self._buffer.trim_buffer_to_flag_or_end()
+            self._raw_data.clear()
+            self._buffer.clear()
 
         self._buffer.extend(data_chunk)
 
@@ -307,6 +310,10 @@ class ModeDReader(MeterReaderBase[DataReadout]):
                     readout = DataReadout(bytes(self._raw_data))
                     readouts_received.append(readout)
                     _LOGGER.debug("Readout received:\n%s", readout)
+                    self._raw_data.clear()
+                    self._is_int_hunt_mode = True
+                elif len(self._raw_data) > 8191:
+                    # Readout is too long (end line never received). Discard it.
                     self._raw_data.clear()
                     self._is_int_hunt_mode = True
 
@@ -336,6 +343,11 @@ class _ReaderBuffer:
     def extend(self, data_chunk: bytes) -> None:
         """Add bytes to buffer."""
         self._buffer.extend(data_chunk)
+
+    def clear(self) -> None:
+        """Remove all bytes from buffer."""
+        self._buffer.clear()
+        self._buffer_pos = 0
 
     def trim_buffer_to_current_position(self) -> None:
         """Trim buffer to current position."""
